@@ -657,6 +657,7 @@ def assemble(unit, workdir, vacuity_twins=False):
         emit("//@@ end of extracted fn")
         A.fn_ranges.append((start, end, fq, {"file": item["file"], "line": item["line"], "end_line": item.get("end_line"),
                                                     "residual_closures": item.get("residual_closures", 0),
+                                                    "n_loops": len(item.get("loops") or []),
                                                     "props": ex["opts"].get("props", "").split(",") if ex["opts"].get("props") else meta["props"]}))
         # vacuity twin (thorough tier, HQ_VACUITY=1): same signature and `requires`, body `assert(false)`.
         # It must FAIL; if it verifies, the precondition is contradictory and everything proved under it is void.
